@@ -366,7 +366,7 @@ ArithVar(f, g, a, v) ==
   ELSE LET w == VarRec(g, v.name)
            c == [k \in 1..Len(v.vals) |->
                    IF v.mask[k] \/ w.mask[k] THEN [ok |-> FALSE, v |-> RInt(0)]
-                   ELSE ArithCell(a.op, v.vals[k], w.vals[k])]
+                   ELSE ArithCellT(a.op, v.vals[k], w.vals[k], IF w.dt \in IntTypes THEN v.dt ELSE w.dt)]
        IN [v EXCEPT !.vals = [k \in 1..Len(c) |-> c[k].v],
                     !.mask = [k \in 1..Len(c) |-> ~c[k].ok]]
 Exp_arith(fs, a) ==
@@ -411,7 +411,7 @@ Dom_eval(f, a) ==
        /\ ExprVars(e) # {} /\ ExprTotal(e)
        /\ \A k \in ExprVars(e) : HasVar(f, k) /\ VarRec(f, k).enc = "num"
        /\ \A k1, k2 \in ExprVars(e) : VarRec(f, k1).dims = VarRec(f, k2).dims
-       /\ ~HasDim(f, a.assign[i].name)
+       /\ ~HasDim(f, a.assign[i].name) /\ ~HasVar(f, a.assign[i].name)
 EvalVar(f, as) ==
   LET tmpl == VarRec(f, CHOOSE k \in ExprVars(as.e) : TRUE)
       c == [k \in 1..Len(tmpl.vals) |-> EvalExpr(f, as.e, k)]
